@@ -1375,7 +1375,10 @@ fn top_call(w: &mut World, op: &Op) {
                     "?".into()
                 };
                 let msg: String = msg.chars().filter(|c| c.is_ascii_alphanumeric() || *c == ' ').take(60).collect();
-                (format!("libpanic {}", msg), true)
+                // a panic raised by the library itself (not by a scripted payload); the message
+                // goes to stderr, the trace carries the bare fact
+                eprintln!("library panic: {}", msg);
+                ("libpanic".to_string(), true)
             }
         }
     };
